@@ -145,10 +145,7 @@ func c03Check(c execCase, r *h.Rec) error {
 	key := specKey(c.Spec)
 	var lastViol error
 	for _, rec := range res.Records {
-		doc := recRaw(rec, "doc")
-		if doc == "" {
-			doc = recRaw(rec, "full")
-		}
+		doc := recRaw(rec, "doc") // ("full" records may hold non-member enum values: key-set ground truth only)
 		if doc == "" {
 			continue
 		}
